@@ -7,6 +7,7 @@ package main
 import (
 	"fmt"
 	"math"
+	"math/big"
 	"math/rand"
 	"time"
 
@@ -495,7 +496,8 @@ func runPrice(a *App, mon *Mon, seed int64, c priceCase) {
 		if c.VolAt%2 == 0 {
 			second = "0.9"
 		}
-		pricing += fmt.Sprintf(`,"promotions_by_volume":[{"volume":%d,"discount":"%s"},{"volume":%d,"discount":"%s"}]`, c.VolAt, c.VolDisc, c.VolAt+2, second)
+		third := []string{"0.6", "0.2", "0.95"}[int(c.VolAt)%3]
+		pricing += fmt.Sprintf(`,"promotions_by_volume":[{"volume":%d,"discount":"%s"},{"volume":%d,"discount":"%s"},{"volume":%d,"discount":"%s"}]`, c.VolAt, c.VolDisc, c.VolAt+2, second, c.VolAt+4, third)
 	}
 	pricing += "}"
 	p1 := s.A.SignProv[0]
@@ -507,6 +509,19 @@ func runPrice(a *App, mon *Mon, seed int64, c priceCase) {
 		return
 	}
 	cap := op.Base.Int64() + c.CapDelta
+	if c.CapDelta <= -2 {
+		// a cap that separates two tier prices: floor(base x one of the published discounts)
+		var ds []*big.Rat
+		for _, t := range op.ByTime {
+			ds = append(ds, t.Discount)
+		}
+		for _, v := range op.ByVol {
+			ds = append(ds, v.Discount)
+		}
+		if len(ds) > 0 {
+			cap = floorMul(op.Base, ds[int(-c.CapDelta)%len(ds)]).Int64()
+		}
+	}
 	if cap < 1 {
 		cap = 1
 	}
@@ -542,7 +557,10 @@ func priceCases() []priceCase {
 					if vd == "" && va != 1 {
 						continue
 					}
-					for _, cd := range []int64{0, -1} {
+					for _, cd := range []int64{0, -1, -2, -3, -4} {
+						if cd <= -2 && td == "" && vd == "" {
+							continue
+						}
 						out = append(out, priceCase{Base: base, TimeDisc: td, VolDisc: vd, VolAt: va, CapDelta: cd})
 					}
 				}
@@ -644,6 +662,55 @@ func runDeposit(a *App, mon *Mon, seed int64, c depositCase) {
 	s.r.Block(1)
 	s.r.Msg(types.NewMsgRefundServiceDeposit("svc", p1, o), "exactly at the deadline")
 	s.r.Msg(types.NewMsgRefundServiceDeposit("svc", p2, o), "other binding still waiting")
+	s.block()
+	if c.Failures%2 == 1 {
+		// after a zero-height restart the provider still belongs to its owner
+		s.r.Restart()
+	}
+	s.define("svc2")
+	s.bind("svc2", p1, s.A.Owners[1], min+nmin+1000, pr, 1) // another owner tries to take the provider over
+	s.bind("svc2", p1, o, min+nmin+1000, pr, 1)
+	s.block()
+	s.done()
+}
+
+// amounts around 2^63 and 2^64: valid, far below the 256-bit limit, beyond 64-bit arithmetic
+func runWhale(a *App, mon *Mon, seed int64, variant int) {
+	p := baseParams()
+	p.MinDepositMultiple = []int64{200, 1, 3}[variant%3]
+	p.MinDeposit = coins(6000)
+	p.SlashFraction = sdk.MustNewDecFromStr([]string{"0.5", "0.001", "1"}[variant%3])
+	r := NewRun(a, fmt.Sprintf("whale-%d", variant), seed, p, mon)
+	act := MakeActors()
+	act.FundAll(r, 1_000_000_000, 1_000_000, 3)
+	whale := addr20("whale")
+	huge, _ := sdk.NewIntFromString("1000000000000000000000000000000000000000")
+	r.w.Fund("whale", whale, huge)
+	r.w.Fund("consumer1", act.Consumers[0], huge)
+	r.hist.Setup.BigFunds = append(r.hist.Setup.BigFunds, FundRec{"whale", hexs(whale), huge.String()}, FundRec{"consumer1", hexs(act.Consumers[0]), huge.String()})
+	r.SetViaApp(variant%2 == 0)
+	r.Begin()
+	s := &Sc{r: r, A: act, p: p}
+	base := []string{"92233720368547759", "9223372036854775807", "18446744073709551616", "4611686018427387904"}[variant%4]
+	pr := price(base)
+	min := MinDeposit(p, mustPricing(pr))
+	p1 := s.A.SignProv[0]
+	s.define("svc")
+	dep := sdk.NewIntFromBigInt(min).AddRaw(int64(variant % 2))
+	s.r.Msg(types.NewMsgBindService("svc", p1, sdk.NewCoins(sdk.NewCoin(denom, dep)), pr, 1, "{}", whale), "deposit just at a minimum beyond 2^64")
+	capAmt, _ := sdk.NewIntFromString("100000000000000000000")
+	s.r.Msg(types.NewMsgCallService("svc", []sdk.AccAddress{p1}, s.A.Consumers[0], goodInput, sdk.NewCoins(sdk.NewCoin(denom, capAmt)), 1, false, true, 1, 3), "")
+	s.block()
+	s.block() // unanswered: slash takes the deposit below its true minimum
+	for _, rid := range s.pendingOf("", nil) {
+		_ = rid
+	}
+	for _, rid := range s.r.pre.PendingIDs() {
+		s.respond(rid, p1, variant%3)
+	}
+	s.block()
+	s.r.Msg(types.NewMsgWithdrawEarnedFees(whale, nil), "")
+	s.block()
 	s.block()
 	s.done()
 }
@@ -1035,7 +1102,7 @@ func runMarathon(a *App, mon *Mon, seed int64, variant int) {
 	start := []int64{10, 200, 65500, 1<<32 - 30}[variant%4]
 	r := NewRunAt(a, fmt.Sprintf("marathon-%d", variant), seed, p, mon, start)
 	act := MakeActors()
-	act.FundAll(r, 1_000_000_000, 1_000_000, 3)
+	act.FundAll(r, 1_000_000_000, 1_000_000_000, 3)
 	r.Begin()
 	s := &Sc{r: r, A: act, p: p}
 	tiers := [][2]string{{"10", "0.9"}, {"25", "0.5"}, {"50", "0.7"}}
@@ -1055,9 +1122,18 @@ func runMarathon(a *App, mon *Mon, seed int64, variant int) {
 	id := s.call("svc", []sdk.AccAddress{p1}, cons, 1000, 1, false, true, 1, -1)
 	// a long-timeout context runs alongside and crosses the height byte boundaries in flight
 	long := s.call("svc", []sdk.AccAddress{p2}, s.A.Consumers[1], 1000, 100, false, true, 100, 2)
-	for b := 0; b < 70; b++ {
-		for _, rid := range s.pendingOf(id, p1) {
-			s.respond(rid, p1, 0)
+	// a module-owned context counts its batches past 255 as well
+	mod := s.modCreate("svc", []sdk.AccAddress{p1}, s.A.ModCons, 1000, 1, true, 1, -1, 1)
+	for b := 0; b < 265; b++ {
+		// batches 250..258 are left partly unanswered: their fees must come back at expiry
+		quiet := b >= 250 && b <= 258 && b%2 == variant%2
+		if !quiet {
+			for _, rid := range s.pendingOf(id, p1) {
+				s.respond(rid, p1, 0)
+			}
+			for _, rid := range s.pendingOf(mod, p1) {
+				s.respond(rid, p1, 0)
+			}
 		}
 		if b == 65 {
 			for _, rid := range s.pendingOf(long, p2) {
@@ -1067,7 +1143,48 @@ func runMarathon(a *App, mon *Mon, seed int64, variant int) {
 		s.block()
 	}
 	s.ctl("kill", id, cons)
-	for b := 0; b < 140; b++ {
+	s.modCtl("kill", mod, s.A.ModCons)
+	for b := 0; b < 45; b++ {
+		s.block()
+	}
+	s.done()
+}
+
+
+// ---------------------------------------------------------------------------
+// F12: crowd: many objects at once - N contexts of several consumers created in one block
+// (all start, expire and re-start in the same blocks, all name the same provider), and more
+// than a hundred providers bound to one service
+
+func runCrowd(a *App, mon *Mon, seed int64, n int, nprov int) {
+	p := baseParams()
+	p.MinDeposit = coins(1)
+	p.MinDepositMultiple = 1
+	s := newSc(a, mon, fmt.Sprintf("crowd-%d-%d", n, nprov), seed, p, 1_000_000, 1_000_000, "")
+	p1, p2 := s.A.SignProv[0], s.A.SignProv[1]
+	s.define("svc")
+	s.bind("svc", p1, s.A.Owners[0], 100000, price("1"), 1)
+	s.bind("svc", p2, s.A.Owners[1], 100000, price("2"), 1)
+	for i := 0; i < nprov; i++ {
+		addr := sdk.AccAddress(sha256Sum(fmt.Sprint("crowd-provider-", i))[:1+(i*7)%32])
+		s.r.TrackOnly(fmt.Sprintf("crowdprov%d", i), addr)
+		s.bind("svc", addr, s.A.Owners[i%3], 10, price("1"), 1)
+	}
+	var ids []string
+	for i := 0; i < n; i++ {
+		cons := s.A.Consumers[i%2]
+		rep := i%3 != 0
+		ids = append(ids, s.call("svc", []sdk.AccAddress{p1, p2}, cons, 5, 2, false, rep, 2, 3))
+	}
+	s.block()
+	// p2 answers everything, p1 answers every other request: the rest times out together
+	for k, rid := range s.r.pre.PendingIDs() {
+		r := s.r.pre.Requests[rid]
+		if r.Provider.Equals(p2) || k%2 == 0 {
+			s.respond(rid, r.Provider, 0)
+		}
+	}
+	for b := 0; b < 9; b++ {
 		s.block()
 	}
 	s.done()
@@ -1166,6 +1283,14 @@ func directedJobs(prop, tier string, seed int64) []job {
 	for v := 0; v < q(2*weight("C07", "C18", "C11"), 16); v++ {
 		v := v
 		add("marathon", func(a *App, mon *Mon) *Run { runMarathon(a, mon, seed, v); return mon.run })
+	}
+	for v := 0; v < q(3*weight("C04", "C14", "C01", "C02"), 12); v++ {
+		v := v
+		add("whale", func(a *App, mon *Mon) *Run { runWhale(a, mon, seed, v); return mon.run })
+	}
+	add("crowd", func(a *App, mon *Mon) *Run { runCrowd(a, mon, seed, 45, 0); return mon.run })
+	if thorough || serves("C02", "C08", "C12", "C15", "C16", "C17") {
+		add("crowd", func(a *App, mon *Mon) *Run { runCrowd(a, mon, seed, 135, 105); return mon.run })
 	}
 	for v := 0; v < q(2, 4); v++ {
 		v := v
